@@ -17,6 +17,9 @@ def convert_code_string(code: str, filename="<string>", configs: Configs | None 
         configs = Configs()
 
     ast_root = ast.parse(code, filename, "exec")
+    # let the compiler refuse what it refuses (break outside a loop,
+    # two starred targets, duplicated keyword arguments ...): nothing is executed
+    compile(ast_root, filename, "exec", dont_inherit=True)
     symtable_root = symtable.symtable(code, filename, "exec")
     out = convert(ast_root, symtable_root, configs)
 
